@@ -15,8 +15,9 @@ import BpProofs.JsonEqv
 
   under the SCHEMA guards `jsonOk S E cs` (BpModel/Json.lean: D15 names, D17 field kinds, enum
   aliases) and `groupsOk S` (every oneof index of a field is a group of its class), and the VALUE
-  guards `wellTyped S m` (BpModel/Json.lean) and `selOk S m` (a oneof selection names a member
-  of that very group — the part of the oneof invariant `wellTyped` does not contain).
+  guards `wellTyped' S m` (BpProofs/JsonGuard.lean: `wellTyped` of BpModel/Json.lean without the
+  clause "an absent plain sub-message equals a fresh one") and `selOk S m` (a oneof selection names
+  a member of that very group — the part of the oneof invariant `wellTyped` does not contain).
 -/
 namespace Bp
 open Gen
@@ -93,13 +94,14 @@ def emitted2 (S : Schema) (E : Enums) (cs : KeyCase) (fs : List FieldD) (cur : L
       | Option.none => emitted2 S E cs fs cur (idx + 1) vs
 
 /-- the per-slot statement of the induction: (1) a written field is not null, decodes to
-    `jrt v`, which is related to `v`, present, not a sentinel, and the field is readable;
+    `jrt v`, which is related to `v`, kept (`keptSlot`: present, or a sub-message that differs
+    from its default), not a sentinel, and the field is readable;
     (2) an omitted field is not the selected member, and holds the dataclass default or an
     absent default-valued value -/
 def SlotRT2 (S : Schema) (E : Enums) (cs : KeyCase) (f : FieldD) (hid sel : Bool) (v : Val) : Prop :=
   (∀ j, toDictSlot S E cs false f hid sel v = some j →
       j ≠ .null ∧ decodeField S E f j = .ok (jrt S E cs v) ∧ DEqv S v (jrt S E cs v) ∧
-      presentSlot f sel v = true ∧ isSentinel f (jrt S E cs v) = false ∧ hid = false)
+      keptSlot S f sel v = true ∧ isSentinel f (jrt S E cs v) = false ∧ hid = false)
   ∧ (toDictSlot S E cs false f hid sel v = Option.none →
       sel = false ∧
       (v = freshVal f ∨ (f.optional = false ∧ eqDefault S f.defKind v = true ∧ onWireOf v = false)))
@@ -354,7 +356,7 @@ theorem initCur_jrtSlots (S : Schema) (E : Enums) (cs : KeyCase) (fs : List Fiel
 theorem dAtom_freshVal (f : FieldD) : dAtom (freshVal f) = true := by
   unfold freshVal; split <;> rfl
 
-theorem presentSlot_freshVal (f : FieldD) (sel : Bool) : presentSlot f sel (freshVal f) = true := by
+theorem keptSlot_freshVal (S : Schema) (f : FieldD) (sel : Bool) : keptSlot S f sel (freshVal f) = true := by
   unfold freshVal; split <;> rfl
 
 theorem slotsDEqv_jrt (S : Schema) (E : Enums) (cs : KeyCase) (fs : List FieldD) (cur : List (Option Nat))
@@ -386,7 +388,7 @@ theorem slotsDEqv_jrt (S : Schema) (E : Enums) (cs : KeyCase) (fs : List FieldD)
       rcases hc with hc | ⟨ho, hd, hw⟩
       · rw [← hc]
         refine SlotsDEqv.same fs cur idx fs[idx] v v vs _ hf (DEqv.atom v (by rw [hc]; exact dAtom_freshVal _)) ?_ ih'
-        rw [hc]; exact presentSlot_freshVal _ _
+        rw [hc]; exact keptSlot_freshVal _ _ _
       · have : freshVal fs[idx] = Val.ph := by simp [freshVal, ho]
         rw [this]
         exact SlotsDEqv.unset fs cur idx fs[idx] v vs _ hf ho hsel hd hw ih'
